@@ -54,7 +54,10 @@ class StateMachine:
             return
         await self._callback.on_change_state(self.state)
 
-    async def on_exit_created(self, _: EventData) -> None:
+    async def on_exit_created(self, event: EventData) -> None:
+        if event.event and event.event.name == 'close':
+            # Closed without having been initialized. Nothing has started.
+            return
         await self._callback.start()
 
     async def on_enter_initialized(self, _: EventData) -> None:
